@@ -7,7 +7,7 @@
 (* so they are silent steps that TLC places wherever an explanation needs  *)
 (* them.  Acceptance: the whole file is consumed (POSTCONDITION).          *)
 (***************************************************************************)
-EXTENDS QueueAbs, Json, IOUtils
+EXTENDS QueueAbs, Integers, Json, IOUtils
 
 Rec == ndJsonDeserialize(IOEnv.TRACE)
 N == Len(Rec)
@@ -16,7 +16,10 @@ VARIABLES l,   \* next line of the trace
           rk,  \* search hint: entry |-> position in the hand-off sequence (0 = never), see SilentLin
           sub  \* 1 = a tracing subscriber is installed in the recorded process (then the queue must not
                \* write its in-band error report: C01 allows it only when none is installed)
-tvars == <<avars, l, rk, sub>>
+          \* burst: -1 outside a burst, else the number of in-band reports since BurstBegin (the harness
+          \* marks a quick burst of failing entries after a quiet period: the report is rate limited)
+VARIABLE burst
+tvars == <<avars, l, rk, sub, burst>>
 
 Ev(name) == l <= N /\ Rec[l].ev = name
 Adv == l' = l + 1
@@ -24,7 +27,7 @@ Adv == l' = l + 1
 TInit ==
     /\ l = 1
     /\ AInit(1, 1)
-    /\ rk = <<>> /\ sub = 0
+    /\ rk = <<>> /\ sub = 0 /\ burst = -1
     /\ TLCSet(1, 1)
 
 TReset ==
@@ -33,27 +36,33 @@ TReset ==
     /\ nexted' = <<>> /\ lastRes' = "none" /\ lost' = {} /\ flushed' = {} /\ unflushed' = 0
     /\ closed' = FALSE /\ before' = <<>> /\ fdone' = {} /\ hs' = "held" /\ snap' = {}
     /\ sinks' = Rec[l].sinks
-    /\ rk' = <<>> /\ sub' = Rec[l].sub
+    /\ rk' = <<>> /\ sub' = Rec[l].sub /\ burst' = -1
 
-TAppStart == Ev("AppStart") /\ Adv /\ AppStart(Rec[l].p, Rec[l].e) /\ rk' = (Rec[l].e :> Rec[l].r) @@ rk /\ UNCHANGED sub
-TAppEnd   == Ev("AppEnd") /\ Adv /\ AppEnd(Rec[l].p, Rec[l].e) /\ UNCHANGED <<rk, sub>>
-TNext     == Ev("Next") /\ Adv /\ Next(Rec[l].e, Rec[l].res) /\ UNCHANGED <<rk, sub>>
-TReport   == Ev("Report") /\ Adv /\ sub = 0 /\ Report /\ UNCHANGED <<rk, sub>>
-TFlush    == Ev("Flush") /\ Adv /\ Flush /\ UNCHANGED <<rk, sub>>
-TClose    == Ev("Close") /\ Adv /\ Close /\ UNCHANGED <<rk, sub>>
-TFlushReq == Ev("FlushReq") /\ Adv /\ FlushReq(Rec[l].f) /\ UNCHANGED <<rk, sub>>
-TFlushDone == Ev("FlushDone") /\ Adv /\ FlushDone(Rec[l].f) /\ UNCHANGED <<rk, sub>>
-TDropStart == Ev("DropStart") /\ Adv /\ DropStart /\ UNCHANGED <<rk, sub>>
-TDropEnd  == Ev("DropEnd") /\ Adv /\ DropEnd /\ UNCHANGED <<rk, sub>>
-TForget   == Ev("Forget") /\ Adv /\ Forget /\ UNCHANGED <<rk, sub>>
-TSinkClone == Ev("SinkClone") /\ Adv /\ SinkClone /\ UNCHANGED <<rk, sub>>
-TSinkDrop == Ev("SinkDrop") /\ Adv /\ SinkDrop /\ UNCHANGED <<rk, sub>>
-TQuiesce  == Ev("Quiesce") /\ Adv /\ Quiesced /\ UNCHANGED <<avars, rk, sub>>
+TAppStart == Ev("AppStart") /\ Adv /\ AppStart(Rec[l].p, Rec[l].e) /\ rk' = (Rec[l].e :> Rec[l].r) @@ rk /\ UNCHANGED <<sub, burst>>
+TAppEnd   == Ev("AppEnd") /\ Adv /\ AppEnd(Rec[l].p, Rec[l].e) /\ UNCHANGED <<rk, sub, burst>>
+TNext     == Ev("Next") /\ Adv /\ Next(Rec[l].e, Rec[l].res) /\ UNCHANGED <<rk, sub, burst>>
+TReport   == Ev("Report") /\ Adv /\ sub = 0 /\ Report /\ burst' = (IF burst >= 0 THEN burst + 1 ELSE burst) /\ UNCHANGED <<rk, sub>>
+TFlush    == Ev("Flush") /\ Adv /\ Flush /\ UNCHANGED <<rk, sub, burst>>
+TClose    == Ev("Close") /\ Adv /\ Close /\ UNCHANGED <<rk, sub, burst>>
+TFlushReq == Ev("FlushReq") /\ Adv /\ FlushReq(Rec[l].f) /\ UNCHANGED <<rk, sub, burst>>
+TFlushDone == Ev("FlushDone") /\ Adv /\ FlushDone(Rec[l].f) /\ UNCHANGED <<rk, sub, burst>>
+TDropStart == Ev("DropStart") /\ Adv /\ DropStart /\ UNCHANGED <<rk, sub, burst>>
+TDropEnd  == Ev("DropEnd") /\ Adv /\ DropEnd /\ UNCHANGED <<rk, sub, burst>>
+TForget   == Ev("Forget") /\ Adv /\ Forget /\ UNCHANGED <<rk, sub, burst>>
+TSinkClone == Ev("SinkClone") /\ Adv /\ SinkClone /\ UNCHANGED <<rk, sub, burst>>
+TSinkDrop == Ev("SinkDrop") /\ Adv /\ SinkDrop /\ UNCHANGED <<rk, sub, burst>>
+TQuiesce  == Ev("Quiesce") /\ Adv /\ Quiesced /\ UNCHANGED <<avars, rk, sub, burst>>
 \* the queue's own metrics are the subject of QueueMetricsTrace.tla (X04); here they are skipped
-TSelfMetrics == Ev("SelfMetrics") /\ Adv /\ UNCHANGED <<avars, rk, sub>>
+TSelfMetrics == Ev("SelfMetrics") /\ Adv /\ UNCHANGED <<avars, rk, sub, burst>>
+\* rate limit of the in-band report (interval 1 s, whole seconds): a burst that took less than a
+\* second of wall time contains at most two reports (one per second it touches)
+TBurstBegin == Ev("BurstBegin") /\ Adv /\ burst' = 0 /\ UNCHANGED <<avars, rk, sub>>
+TBurstEnd == /\ Ev("BurstEnd") /\ Adv
+             /\ (Rec[l].short = 1 => burst <= 2)
+             /\ burst' = -1 /\ UNCHANGED <<avars, rk, sub>>
 \* a tracing subscriber is installed from here on (bq scenario `after_sub`)
-TSubInstalled == Ev("SubInstalled") /\ Adv /\ sub' = 1 /\ UNCHANGED <<avars, rk>>
-TOverflows == Ev("Overflows") /\ Adv /\ OverflowCount(Rec[l].n) /\ UNCHANGED <<avars, rk, sub>>
+TSubInstalled == Ev("SubInstalled") /\ Adv /\ sub' = 1 /\ UNCHANGED <<avars, rk, burst>>
+TOverflows == Ev("Overflows") /\ Adv /\ OverflowCount(Rec[l].n) /\ UNCHANGED <<avars, rk, sub, burst>>
 \* events the harness logs when something that must happen did not (append took longer
 \* than its budget, a flush never completed, the stream was never closed, a panic):
 \* no action consumes them, so the trace is rejected there.
@@ -66,15 +75,15 @@ InOrder(e) == \A pe2 \in pending : rk[e] = 0 \/ rk[pe2[2]] = 0 \/ rk[e] <= rk[pe
 \* the entry it hands over next.
 SilentLin == /\ l <= N /\ \E pe \in pending : InOrder(pe[2]) /\ Lin(pe[1], pe[2])
              /\ (Len(q) >= cap => rk[Head(q)] = 0)
-             /\ UNCHANGED <<l, rk, sub>>
+             /\ UNCHANGED <<l, rk, sub, burst>>
 SilentPop == /\ l <= N /\ Pop
              /\ rk[Head(q)] = Len(nexted) + 1
-             /\ UNCHANGED <<l, rk, sub>>
+             /\ UNCHANGED <<l, rk, sub, burst>>
 
 TNext_ ==
     \/ TReset \/ TAppStart \/ TAppEnd \/ TNext \/ TReport \/ TFlush \/ TClose
     \/ TFlushReq \/ TFlushDone \/ TDropStart \/ TDropEnd \/ TForget \/ TSinkClone \/ TSinkDrop
-    \/ TQuiesce \/ TOverflows \/ TSelfMetrics \/ TSubInstalled
+    \/ TQuiesce \/ TOverflows \/ TSelfMetrics \/ TSubInstalled \/ TBurstBegin \/ TBurstEnd
     \/ SilentLin \/ SilentPop
 
 TSpec == TInit /\ [][TNext_]_tvars
